@@ -28,3 +28,10 @@ pub use state::McState;
 pub use strategy::*;
 pub use system::{McSystem, McTime};
 use trace_handler::TraceHandler;
+
+/// Verification hooks: names of otherwise crate-private types.
+#[cfg(anysystem_verif)]
+pub mod verif {
+    pub use super::node::McNodeState;
+    pub use super::pending_events::PendingEvents;
+}
